@@ -176,3 +176,12 @@ prop("C11",
      technique="property-based testing (rapid): fault injection into configurations, validity predicate over the result",
      rule="consistency = unique legal names, type map closed under field / argument / input-field / interface / member / root references and containing the 8 introspection types, output vs input positions, declared interfaces really implemented (own covariance relation, identical argument types, no extra required arguments), PossibleTypes = declared implementers / members each once, IsPossibleType agrees. Non-trivial = a mutated configuration or an append history; distinct by case hash.",
      runs=[dict(test="^TestC11$", quick=dict(checks=20000), thorough=dict(checks=200000, shards=16, timeout=3000))])
+
+prop("C06",
+     level_text="model-based search over cache histories (rapid): sequences of Get+ExecutePlan / Reset / plan-once-execute-many over a working set drawn from a pool of near-identical requests (pairs differing in one literal, literal kind, directive, variable default, alias, argument order, repeated field, separator-like string contents, operation name, fragment body; invalid, over-size and syntactically wrong requests), two schema values of equal shape, MaxEntries in {1,2,3,1024}, MaxQueryBytes default or small, Normalize on/off, nil cache; plus rapid-generated documents with a literal-perturbed neighbour served alternately. Oracle = every served response equals graphql.Do of the same request from scratch (data JSON, error presence, error paths); with exact keys the hit/miss counters must match a reference LRU bounded by MaxEntries and bound to the schema pointer; over-size and nil-cache requests never touch the counters; a planned document is left unmodified",
+     note="resolvers echo their arguments, so a wrong literal, default or shared entry shows in data; under Normalize the counters are only required to move by exactly one per cacheable lookup. 'The original document is not modified' is observable only for PlanQuery+ExecutePlan on a caller-held AST (PlanCache.Get takes text)",
+     technique="property-based testing (rapid): stateful / model-based history generation with a from-scratch differential oracle",
+     rule="Non-trivial = a history that looks a key up again after it was stored (potential hit, collision or eviction), a reused plan executed more than once, or a generated document whose neighbour differs in >= 1 literal; distinct by case hash.",
+     assumptions=EXEC_ASSUME,
+     runs=[dict(test="^TestC06$", quick=dict(checks=4000), thorough=dict(checks=40000, shards=16, timeout=3000)),
+           dict(test="^TestC06_Gen$", quick=dict(checks=1500), thorough=dict(checks=15000, shards=16, timeout=3000))])
